@@ -76,6 +76,8 @@ impl SJob {
 pub struct Spec {
     pub jobs: BTreeMap<u32, SJob>,
     pub queues: BTreeSet<u32>,
+    /// workers connected to the current server life
+    pub workers: BTreeSet<u32>,
     pub uid: String,
     /// every id of that kind a creating record mentions (C11)
     pub all_jobs: BTreeSet<u32>,
@@ -128,11 +130,16 @@ impl Spec {
 
     pub fn step(&mut self, r: &Rec) {
         match r {
-            Rec::Start(u) => self.uid = u.clone(),
+            Rec::Start(u) => {
+                self.uid = u.clone();
+                self.workers.clear();
+            }
             Rec::WConn(w, _) => {
                 self.all_workers.insert(*w);
+                self.workers.insert(*w);
             }
             Rec::WLost(w, reason) => {
+                self.workers.remove(w);
                 for job in self.jobs.values_mut() {
                     for a in &mut job.tasks {
                         if a.run.as_ref().and_then(|ws| ws.first()) == Some(w) {
@@ -208,14 +215,19 @@ impl Spec {
             Rec::JClose(j) => self.jobs.get(j).map(|j| j.open).unwrap_or(false),
             Rec::JCancel(j) => self.jobs.contains_key(j),
             Rec::JDone(j) => self.jobs.get(j).map(|j| !j.open && j.tasks.iter().all(|a| a.st != Outcome::Waiting)).unwrap_or(false),
-            Rec::TStart { job, task, inst, .. } => self
-                .task(*job, *task)
-                .map(|a| a.st == Outcome::Waiting && a.inst.map(|i| i < *inst).unwrap_or(true))
-                .unwrap_or(false),
+            Rec::TStart { job, task, inst, workers } => {
+                let mw = self.all_workers.iter().max().copied().unwrap_or(0);
+                self.task(*job, *task)
+                    .map(|a| a.st == Outcome::Waiting && a.inst.map(|i| i < *inst).unwrap_or(true))
+                    .unwrap_or(false)
+                    && workers.iter().all(|w| *w <= mw)
+            }
             Rec::TFin(j, t) => self.task(*j, *t).map(|a| a.st == Outcome::Waiting && a.inst.is_some()).unwrap_or(false),
             Rec::TFail(j, t) => waiting(*j, *t),
             Rec::TCancel(ids) | Rec::TAbort(ids) => ids.iter().all(|(j, t)| waiting(*j, *t)) && nodup(ids),
             Rec::QNew(q) => !self.queues.contains(q),
+            Rec::WConn(w, _) => self.all_workers.iter().max().map(|m| m < w).unwrap_or(*w > 0),
+            Rec::WLost(w, _) => self.workers.contains(w),
             _ => true,
         }
     }
